@@ -287,6 +287,14 @@ class Gen:
         n = rng.randint(1, 3)
         return [self.gen_param(rng.choice(["R", "P"]), loopvars) for _ in range(n)]
 
+    def fresh_loopvar(self, enclosing):
+        """counting variable: names are reused between loops of one task, never inside a loop over the same name"""
+        pool = [v for v in ("i", "j", "k", "m") if v not in enclosing]
+        if pool and self.rng.random() < 0.8:
+            return self.rng.choice(pool[:2])
+        self.loopvar += 1
+        return "i%d" % self.loopvar
+
     # statements -----------------------------------------------------------------------------
     def gen_block(self, depth, callees, ctx, n=None):
         rng = self.rng
@@ -325,8 +333,7 @@ class Gen:
             return {"k": "cond", "e": strip_outer_paren(gen_bool_expr(rng, 2)),
                     "passed": self.gen_block(depth - 1, callees, ctx), "failed": failed}
         if k == "cloop":
-            self.loopvar += 1
-            v = "i%d" % self.loopvar
+            v = self.fresh_loopvar(lv)
             lim = rng.choice([0, 1, 2, 2, 3]) if rng.random() < 0.6 else rng.choice(NUM_PATHS)
             c2 = dict(ctx, inloop=True, loopvars=lv + [v], ploop_ok=False)
             return {"k": "cloop", "var": v, "limit": lim, "body": self.gen_block(depth - 1, callees, c2)}
@@ -334,8 +341,7 @@ class Gen:
             c2 = dict(ctx, inloop=True, ploop_ok=False)
             return {"k": "wloop", "e": gen_guard(rng), "body": self.gen_block(depth - 1, callees, c2)}
         if k == "ploop":
-            self.loopvar += 1
-            v = "i%d" % self.loopvar
+            v = self.fresh_loopvar(lv)
             lim = rng.choice([0, 1, 2, 3]) if rng.random() < 0.5 else rng.choice(NUM_PATHS)
             return {"k": "ploop", "var": v, "limit": lim, "call": self.call(callees, lv + [v])}
         raise ValueError(k)
